@@ -1,7 +1,7 @@
 /-
   Model.Tsm.Ssm — one segmentation state machine: the code of `SSM`,
   `ClientSSM` and `ServerSSM` (py34/bacpypes/appservice.py, tree AFTER the
-  repairs fixes/Tsm-1 … Tsm-9 and C05-server-first-segment-seq0), transcribed branch for branch.
+  repairs fixes/Tsm-1 … Tsm-10 and C05-server-first-segment-seq0), transcribed branch for branch.
 
   Every handler is a function of the transaction's key and body and returns
   `(new body | none = set_state(COMPLETED/ABORTED): removed from its list,
@@ -343,12 +343,13 @@ def promote (sa : Bool) (di : Option DeviceInfo) : Option DeviceInfo :=
     else some d
 
 /-- the client's maximum APDU the server works with: the value decoded from
-    the request header, replaced by the cached (I-Am) value when that is not smaller -/
+    the request header; a cached (I-Am / device object) value can only LOWER
+    it (fix Tsm-10: it used to raise it as well) -/
 def announcedMax (di : Option DeviceInfo) (m : Nat) : Nat :=
   match di with
   | some d =>
     match d.maxApdu with
-    | some dm => if dm < m then m else dm
+    | some dm => if dm < m then dm else m
     | none => m
   | none => m
 
@@ -360,7 +361,7 @@ def serverIdle (cfg : Cfg) (now : Nat) (di : Option DeviceInfo) (k : Key) (b : B
   match decodeMaxApdu a.maxResp with
   | none => serverAbortNet k abortOther                        -- fix Tsm-4
   | some m =>
-    let b := { b with maxApdu := announcedMax di m, maxSegs := decodeMaxSegs a.maxSegs }
+    let b := { b with maxApdu := announcedMax di m, maxSegs := decodeMaxSegs a.maxSegs, announced := m }
     if !a.seg then
       (some { b with st := .awaitResp, timer := stateTimer now cfg.appTimeout },
        [.indicate k.peer a])
